@@ -41,7 +41,7 @@ for r in mut:
 print("\n%d of %d (mutant, expected check) pairs caught.\n" % (n_ok, n_all))
 
 print("### 13.2 Seeded changes from independent sub-agents (%d) against all checks\n" % len(seeded))
-print("`target` = the check of the property the change was written to break; `also` = other checks that report it. C17 was only run where it is the target.\n")
+print("`target` = the check of the property the change was written to break; `also` = other checks that report it. C17 was only run where it is the target; the 54 seeds of rounds five to seven (`-x`, `-y`, `-z`) were run against their target check only.\n")
 print("| seed | what it changes / what it needs | target | also caught by | inconclusive (exit 2) |\n|---|---|---|---|---|")
 for r in seeded:
     sid = r["id"]
@@ -59,7 +59,7 @@ for r in seeded:
     summ = (meta.get("summary", "")[:230] + "…") if len(meta.get("summary", "")) > 230 else meta.get("summary", "")
     print("| %s | %s | %s | %s | %s |" % (sid, summ.replace("|", "/").replace("\n", " "), tcell, " ".join(also), " ".join(inc)))
 
-print("\n### 13.3 Neutral edits (10) against all checks: every check must stay silent\n")
+print("\n### 13.3 Neutral edits (10) against the checks: every check must stay silent\n")
 print("| neutral edit | checks run | alarms |\n|---|---|---|")
 for r in neutral:
     ch = r.get("checks", {})
@@ -68,7 +68,7 @@ for r in neutral:
 
 if old:
     print("\n### 13.4 Later-round seeds: the targeted check before and after the round\n")
-    print("`before` = the check as committed before the descriptions of that batch were read (commit bfd5a8c for the `-c`/`-d` seeds, f86ca1e for the three `-w` seeds that prompted a change, 002433c for the `-v` seeds); `after` = the committed check. Seeds of the later rounds not listed here were run only against the committed checks (all caught, 13.2).\n")
+    print("`before` = the check as committed before the descriptions of that batch were read (commit bfd5a8c for the `-c`/`-d` seeds, f86ca1e for the three `-w` seeds that prompted a change, 002433c for the `-v` seeds, 00bfc52 for `-x`, 77eee19 for `-y` (C10-y's old-check run overlapped an edit of C10 and is not to be trusted as `caught`), 2656982 for `-z`); `after` = the committed check.\n")
     print("| seed | before | after |\n|---|---|---|")
     new = {r["id"]: r for r in seeded}
     for r in old:
